@@ -518,8 +518,8 @@ def run(ctx, args):
     vlib.log("in-process: %d registry traces" % len(t1))
     plan = [(k, []) for k in range(len(progs))]
     if thorough and not args.replay:
-        # a second option set (Go names and typedef representation change, the descriptors must not)
-        plan += [(k, ["naming_style=golint", "use_type_alias=false", "gen_setter"]) for k, fv in enumerate(fvs) if fv["rot"] < 2]
+        # a second option set (presentation-only options: the descriptors must not change)
+        plan += [(k, ["naming_style=golint", "gen_setter", "nil_safe", "json_enum_as_text"]) for k, fv in enumerate(fvs) if fv["rot"] < 2]
     if args.replay and rp["case"].get("opts"):
         plan = [(0, [o for o in rp["case"]["opts"] if o != "with_reflection"])]
     t2, m2 = compiled(ctx, fvs, progs, imgs, descs, plan)
